@@ -190,6 +190,18 @@ CLAIMED.update({
   ref="DESIGN.md 4/C16, 9"),
 })
 
+CLAIMED.update({
+ "C14": dict(
+  text="Deductive proof for the block-candidate builder (core/mempool/txblock_builder.go): both phases keep the gas of the candidate list within "
+       "the block gas cap (a priority chain is taken only as a whole and only if the whole chain fits - inductive loop invariant; a regular "
+       "transaction only if it fits), a regular transaction enters the list only with the nonce that continues its sender's sequence "
+       "(obligations at the append site), gas is ten per byte of the fee size and bounded (no overflow of the running sums).",
+  note="Only the builder's sequential arithmetic. Not decided: pool placement/promotion/pruning (put, ResetTo), duplicates, retrievability, "
+       "and everything concurrent (deadlocks, races: no concurrency in contracts; seed C14-2, a lock-order inversion, is out of reach). "
+       "Assumes the encoded size of a transaction is below 1 GiB and stable while the list is built (A-det-fee).",
+  ref="DESIGN.md 4/C14, 9"),
+})
+
 PENDING = {
 }
 
